@@ -2,15 +2,28 @@
 #![allow(dead_code, unused_results, clippy::all)]
 use super::*;
 
-// @harness id=full_collector_counters props=C14,C05,C16,C04 kind=full tier=quick fns=StatsCollector::collect,RdhStats::add_rdhs_seen,RdhStats::add_rdhs_filtered,RdhStats::add_payload_size,RdhStats::add_hbfs_seen,RdhStats::record_trigger_type,StatsCollector::rdhs_seen,StatsCollector::payload_size,StatsCollector::hbfs_seen,StatsCollector::any_rdhs_seen
+// @harness id=full_collector_counters props=C14,C05,C16,C04 kind=full tier=quick fns=StatsCollector::collect,RdhStats::add_rdhs_seen,RdhStats::add_rdhs_filtered,RdhStats::add_payload_size,RdhStats::add_hbfs_seen,StatsCollector::rdhs_seen,StatsCollector::payload_size,StatsCollector::hbfs_seen,StatsCollector::any_rdhs_seen
 // Routing of the numeric statistics kinds to their accumulators, and commutativity of two updates.
 #[kani::proof]
 #[kani::unwind(4)]
 fn full_collector_counters() {
+    let k: u8 = kani::any();
+    kani::assume(k <= 3);
+    collector_counters_case(k);
+}
+
+// @harness id=full_collector_trigger_type props=C14,C05,C16,C04 kind=full tier=quick fns=StatsCollector::collect,RdhStats::record_trigger_type
+// Same for the trigger-type kind (split off: the whole-collector comparison with the per-bit counters is the
+// expensive part; one harness for all five kinds needed 9.9 GB).
+#[kani::proof]
+#[kani::unwind(4)]
+fn full_collector_trigger_type() {
+    collector_counters_case(4);
+}
+
+fn collector_counters_case(k: u8) {
     let mut c = StatsCollector::default();
     let (a, b): (u32, u32) = (kani::any(), kani::any());
-    let k: u8 = kani::any();
-    kani::assume(k <= 4);
     let mk = |k: u8, v: u32| match k {
         0 => StatType::RDHSeen(v),
         1 => StatType::RDHFiltered(v),
